@@ -119,6 +119,14 @@ class Struct:
                 return False
         return True
 
+    def has_array(self, types):
+        for f in self.fields:
+            if f.kind in ("u8arr", "arr"):
+                return True
+            if f.kind == "struct" and types[f.ref].has_array(types):
+                return True
+        return False
+
     def has_fallible(self, types):
         for f in self.fields:
             if f.skip:
@@ -561,20 +569,32 @@ def emit_struct_check(o, s, types):
         o.w("    assert!(dst[N] == t0 && dst[N + 1] == t1);")
     if "R" in s.derive:
         o.w("    let buf: [u8; N + 2] = kani::any();")
-        o.w("    let m: usize = kani::any();")
-        o.w("    kani::assume(m <= N + 2);")
-        o.w("    let r = <%s as EtherCrabWireRead>::unpack_from_slice(&buf[..m]);" % p)
-        o.w("    kani::cover!(m >= N && r.is_ok());")
-        o.w("    kani::cover!(m < N);")
+        arrays = s.has_array(types)
+        if arrays:
+            # [T; N]::unpack_from_slice on a slice of symbolic length is ~10x more expensive for CBMC than
+            # on a concrete length: enumerate every length 0..=N+2 (same domain) with symbolic contents.
+            o.w("    let mut m: usize = 0;")
+            o.w("    while m <= N + 2 {")
+            ind = "    "
+        else:
+            o.w("    let m: usize = kani::any();")
+            o.w("    kani::assume(m <= N + 2);")
+            ind = ""
+        o.w(ind + "    let r = <%s as EtherCrabWireRead>::unpack_from_slice(&buf[..m]);" % p)
+        o.w(ind + "    kani::cover!(m >= N && r.is_ok());")
+        o.w(ind + "    kani::cover!(m < N);")
         if fallible:
-            o.w("    kani::cover!(m >= N && r.is_err());")
-        o.w("    match r {")
-        o.w("        Ok(u) => { assert!(m >= N); assert!(valid_%s(&buf, 0)); assert!(chk_%s(&u, &buf, 0)); }" % (i, i))
-        o.w("        Err(e) => {")
-        o.w("            if m < N { assert!(e == WireError::ReadBufferTooShort); }")
-        o.w("            else { assert!(e == WireError::InvalidValue); assert!(!valid_%s(&buf, 0)); }" % i)
-        o.w("        }")
-        o.w("    }")
+            o.w(ind + "    kani::cover!(m >= N && r.is_err());")
+        o.w(ind + "    match r {")
+        o.w(ind + "        Ok(u) => { assert!(m >= N); assert!(valid_%s(&buf, 0)); assert!(chk_%s(&u, &buf, 0)); }" % (i, i))
+        o.w(ind + "        Err(e) => {")
+        o.w(ind + "            if m < N { assert!(e == WireError::ReadBufferTooShort); }")
+        o.w(ind + "            else { assert!(e == WireError::InvalidValue); assert!(!valid_%s(&buf, 0)); }" % i)
+        o.w(ind + "        }")
+        o.w(ind + "    }")
+        if arrays:
+            o.w("        m += 1;")
+            o.w("    }")
     if s.derive == "RW":
         o.w("    if fits_%s(&v) {" % i)
         o.w("        match <%s as EtherCrabWireRead>::unpack_from_slice(&out) { Ok(u) => assert!(eq_%s(&u, &v)), Err(_) => assert!(false) }" % (p, i))
@@ -782,8 +802,8 @@ def fam_D(fam, tier):
                  Field("z", "u16", 16)])
     S("D_nest2", [Field("h", "D_nest", 48, spell={"w": "bytes"}), Field("e", "D_enums", 48, pre=16, post=8), Field("k", "u8", 8)])
     # arrays decode through chunks_exact().take().map().collect::<heapless::Vec>(): expensive for CBMC, kept small
-    S("D_arr", [Field("a", "[u8; 3]", 24, spell={"w": "bytes"}), Field("b", "u8", 8), Field("c", "[u8; 1]", 8), Field("d", "[u8; 2]", 16, pre=8)])
-    S("D_arr_ro", [Field("a", "[u16; 2]", 32), Field("b", "[i32; 1]", 32, post=8), Field("d", "u8", 8)], derive="R")
+    S("D_arr", [Field("a", "[u8; 4]", 32, spell={"w": "bytes"}), Field("b", "u8", 8), Field("c", "[u8; 1]", 8), Field("d", "[u8; 6]", 48, pre=8)])
+    S("D_arr_ro", [Field("a", "[u16; 3]", 48), Field("b", "[u8; 2]", 16), Field("c", "[i32; 2]", 64, post=8), Field("d", "u8", 8)], derive="R")
     S("D_float", [Field("a", "f32", 32), Field("b", "f64", 64, spell={"w": None}), Field("c", "u8", 8), Field("d", "f64", 64, spell={"w": "bytes"})])
     S("D_skipfield", [Field("a", "u16", 16), Field("ign", "u16", skip=True), Field("b", "u8", 8, post=8)], derive="R")
     S("D_ro", [Field("a", "u8", 3), Field("b", "EPlain8", 2), Field("c", "bool", 1, post=2), Field("d", "EReadOnly8", 8), Field("e", "i16", 16)], derive="R")
@@ -940,8 +960,8 @@ def rand_struct(rng, fam, ident, pool_nested):
             ty = rng.choice(cand)
             f = Field("f%d" % len(fields), ty, fam.types[ty].bits, pre=pend)
         elif c == "arr":
-            n = rng.randint(1, 3)
-            if 8 * n > room_bits or any(x.kind == "u8arr" or x.ty.startswith("[") for x in fields):
+            n = rng.randint(1, 5)
+            if 8 * n > room_bits or any(x.ty.startswith("[") for x in fields):
                 continue
             f = Field("f%d" % len(fields), "[u8; %d]" % n, 8 * n, pre=pend)
         # multi-byte fields need the pre-skip to keep byte alignment
@@ -1198,7 +1218,7 @@ def main():
     group("c19_gen_c", "quick", cq, 8, "family C: multi-byte primitives at byte offsets with skips")
     group("c19_gen_c_t", "thorough", ct, 14, "family C (all offset/skip combinations)")
     d = fam_D(fam, tier)
-    heavy = ["D_nest2", "D_arr"]     # expensive members (deep nesting, three array decodes)
+    heavy = ["D_nest2"]     # expensive member (deep nesting)
     group("c19_gen_d", "quick", [x for x in d if x not in heavy], 8, "family D: special shapes")
     group("c19_gen_d_t", "thorough", heavy, 1, "family D: special shapes (expensive members)")
     nest_pool = blocks + ["D_mid", "D_nest", "D_enums"]
@@ -1283,7 +1303,7 @@ def main():
             if "R" in t.derive:
                 fns += ["%s::unpack_from_slice" % t.path]
         o.w("//@ functions: %s" % "; ".join(fns))
-        o.w("//@ bounds: %s: %s; per type: symbolic value, symbolic source/destination buffers of PACKED_LEN+2 (enums +1) bytes with symbolic slice length; "
+        o.w("//@ bounds: %s: %s; per type: symbolic value, symbolic source/destination buffers of PACKED_LEN+2 (enums +1) bytes with symbolic slice length (types containing arrays: every source length 0..=PACKED_LEN+2 enumerated instead); "
             "unwind 66 = 64 bit reference bit loop + 2, all loops have concrete bounds" % (what, ", ".join(idents)))
         o.w("//@ assumes: slice lengths <= buffer size; round trip only asserted for values that fit their declared field width (fits_*)")
         o.w("//@ outside: type definitions not in the generated family (the quantifier over programs is a finite systematic family plus seeded extras, not a solver variable)")
